@@ -233,9 +233,11 @@ package linkedhashmap
 //@   modifies nothing
 //@   ensures [C14 C16 C17 C18] fresh(result) && Inv(result) && fresh(result.table) && fresh(result.ordering) && N(result) <= N(m)
 //@   ensures [C14] all: forall j :: 0 <= j && j < N(m) ==> Has(result, fst(f(K(m)[j], Val(m, K(m)[j]))))
+//@   ensures [C14] only: forall k like fst(f(K(m)[0], Val(m, K(m)[0]))) :: Has(result, k) ==> (exists j :: 0 <= j && j < N(m) && k == fst(f(K(m)[j], Val(m, K(m)[j]))))
 //@   loop 1:
 //@     invariant ItInv(iterator) && iterator.iterator.list == m.ordering && iterator.table == m.table && fresh(iterator) && fresh(newMap) && Inv(newMap) && fresh(newMap.table) && fresh(newMap.ordering) && newMap != m && N(newMap) <= min(iterator.iterator.index + 1, N(m))
 //@     invariant forall j :: 0 <= j && j <= iterator.iterator.index && j < N(m) ==> Has(newMap, fst(f(K(m)[j], Val(m, K(m)[j]))))
+//@     invariant forall k like fst(f(K(m)[0], Val(m, K(m)[0]))) :: Has(newMap, k) ==> (exists j :: 0 <= j && j <= iterator.iterator.index && j < N(m) && k == fst(f(K(m)[j], Val(m, K(m)[j]))))
 //@     decreases N(m) - iterator.iterator.index
 
 //@ -- String: starts with the container's name; reads only (C15, C18)
